@@ -267,6 +267,15 @@ func (t *ArrayTupleOfValue) ConcatVal(other Value) (Value, Value) {
 			}
 
 			return Ref(&newArrayTuple), Undefined
+		case ArrayTuple:
+			newArrayTuple := make(ArrayTupleOfValue, len(*t), len(*t)+o.Length())
+			copy(newArrayTuple, *t)
+
+			for _, element := range o.Elements() {
+				newArrayTuple = append(newArrayTuple, element)
+			}
+
+			return Ref(&newArrayTuple), Undefined
 		}
 	}
 
